@@ -247,12 +247,16 @@ def check(run):
         if r.random() < 0.35:
             # negations of rare terms (few postings: the negated matcher runs out early and gets replaced)
             t = {"op": "term", "f": r.choice(world.TEXT_FIELDS), "t": world.rand_term(r), "b4": 4}
-            form = r.choice(["not", "not", "andnot-every", "and-not", "or-not"])
+            form = r.choice(["not", "not", "andnot-every", "and-not", "or-not", "andmaybe-not", "andmaybe-not"])
             if form == "not":
                 return {"op": "not", "q": t}
             if form == "andnot-every":
                 return {"op": "andnot", "a": {"op": "every", "f": "", "b4": 4}, "b": t}
             other = {"op": "term", "f": r.choice(world.TEXT_FIELDS), "t": world.rand_term(r), "b4": 4}
+            if form == "andmaybe-not":
+                # (the optional side goes on after its negated term has run out: quality calls reach an exhausted
+                # multi-segment matcher)
+                return {"op": "andmaybe", "a": other, "b": {"op": "not", "q": t}}
             return {"op": "and" if form == "and-not" else "or", "kids": [other, {"op": "not", "q": t}], "b4": 4}
         return world.rand_query(r, r.randrange(0, 3), scored_only=False, ops=NOFUZZY)
     trs2, meta2, _ = collect(run, rng, 6 if quick else 60, 30 if quick else 40, "exact", lambda rec, m: (0,),
